@@ -288,7 +288,7 @@ func call(car string, v reflect.Value, rules string) func() error {
 			_ = valid.StructForFn(reflect.Zero(reflect.PtrTo(st)).Interface(), valid.RM{"F": "required|leak3,in=(zz)|leak4"})
 			return valid.Struct(p.Interface())
 		}
-	case "struct-tag-after-other-tag", "struct-tag-after-call-local-functions", "struct-tag-field-70", "struct-rm-after-plain-call", "map-25-entries":
+	case "struct-tag-after-other-tag", "struct-tag-after-call-local-functions", "struct-tag-field-70", "struct-rm-after-plain-call", "map-25-entries", "url-parameter-151-of-200":
 		return func() error {
 			s, isNil := carrier.Validate(carrier.Kind(car), v, rules)
 			if isNil {
@@ -416,6 +416,9 @@ func run(c *runner.Ctx) {
 			}
 			if tv.varOK {
 				cars = append(cars, "var")
+			}
+			if tv.v.Kind() == reflect.String && tv.v.Type() == reflect.TypeOf("") {
+				cars = append(cars, "url-parameter-151-of-200")
 			}
 			for _, car := range cars {
 				if strings.Contains(rf.rules, "exist") && !strings.HasPrefix(car, "struct-") {
